@@ -134,8 +134,10 @@ def run_native(pkgdir, cases, work, tag):
     return res, out
 
 
-def values_to_case(harness_short, values, choices, params):
+def values_to_case(harness_short, values, choices, params, presets=None):
     vals = {}
+    for k, v in (presets or {}).items():
+        vals[k] = str(v)
     for k, v in values.items():
         if isinstance(v, tuple):
             continue
@@ -214,7 +216,7 @@ def job_inner(j):
             # values of nondets missing from an external model default to 0
             for k, (kind, bits, term) in ob.nondet.items():
                 vals.setdefault(k, 0)
-            case = values_to_case(short, vals, ob.choices, hc.get('params', {}))
+            case = values_to_case(short, vals, ob.choices, hc.get('params', {}), j['presets'])
             nat, out = run_native(pkgdir, [case], WORK, 'cx')
             rec['native'] = nat[0][:2] if nat[0] else None
             rec['case'] = case
@@ -269,9 +271,9 @@ def job_inner(j):
                 else:
                     v = st.model.eval(term, model_completion=True)
                     notes.append('%s=%d' % (lab, v.as_long()))
-            samples.append(dict(case=values_to_case(short, vals, st.choices, hc.get('params', {})),
+            samples.append(dict(case=values_to_case(short, vals, st.choices, hc.get('params', {}), j['presets']),
                                 labels=list(getattr(st, 'labels', [])), notes=notes))
-    return dict(harness=hname, presets=j['presets'], paths=res.paths, ended=res.ended, steps=res.steps,
+    return dict(harness=hname, presets=j['presets'] if len(j['presets']) < 8 else {'preset': j.get('tag', 'case')}, tag=j.get('tag', ''), paths=res.paths, ended=res.ended, steps=res.steps,
                 solver_calls=res.solver_calls + nsolve, solver_time=res.solver_time + tsolve, funcs=res.funcs,
                 labels=sorted(res.labels), reached=res.reached, folded=res.folded, obligations=obs,
                 stubs=sorted(res.stubs), assumptions=sorted(fpops.CTX.assumptions | res.assumptions), notes=sorted(set(res.notes)),
@@ -341,8 +343,16 @@ def run(pid, seed, t0):
             continue
         split = hc.get('split', {})
         names = sorted(split)
-        for combo in itertools.product(*[range(split[n]) for n in names]):
-            jobs.append(dict(harness=h, presets=dict(zip(names, combo)), cfg=hc, known=known))
+        cases = hc.get('cases') or [dict()]
+        for case in cases:
+            hc2 = dict(hc)
+            hc2.pop('cases', None)
+            if case.get('params'):
+                hc2['params'] = dict(hc.get('params', {}), **case['params'])
+            for combo in itertools.product(*[range(split[n]) for n in names]):
+                pres = dict(case.get('presets', {}))
+                pres.update(zip(names, combo))
+                jobs.append(dict(harness=h, presets=pres, cfg=hc2, known=known, tag=case.get('tag', '')))
     order = list(range(len(jobs)))
     results = []
     ctx = mp.get_context('fork')
@@ -355,7 +365,7 @@ def run(pid, seed, t0):
                 nv = sum(1 for o in r['obligations'] if o['verdict'] == 'violation')
                 nu = sum(1 for o in r['obligations'] if o['verdict'] in ('unknown', 'spurious'))
                 log('  %-40s %-18s paths=%-5d obl=%-4d viol=%d inconcl=%d %.1fs' % (
-                    r['harness'].split('.H_')[-1], json.dumps(r['presets']) if r['presets'] else '', r['paths'],
+                    r['harness'].split('.H_')[-1], (r.get('tag') or json.dumps(r['presets']))[:18] if r['presets'] else '', r['paths'],
                     len(r['obligations']), nv, nu, r['wall']))
     return finish(pid, seed, t0, t_export, results, known)
 
